@@ -223,6 +223,10 @@ func genRandom(n int, fam string, seed int64, path string, target string) {
 		if tgt == "pool" && nr == 0 {
 			nr = 1
 		}
+		if r.Intn(16) == 0 {
+			// big rule sets, around the sizes at which an implementation would batch its goroutines
+			nr = []int{16, 17, 18, 32, 33, 34}[r.Intn(6)]
+		}
 		style := r.Intn(4)
 		rules := make([]Rule, nr)
 		for j := range rules {
@@ -286,7 +290,7 @@ func genRandom(n int, fam string, seed int64, path string, target string) {
 								x.Sal = randSal(r, style)
 							}
 							ch = append(ch, x)
-						} else if next < 14 {
+						} else if next < 40 {
 							next++
 							ch = append(ch, Rule{Name: fmt.Sprintf("r%d", next), Sal: randSal(r, style), Tpl: "A"})
 						}
